@@ -294,7 +294,9 @@ package core
 //@   hint before (*file).PopBack held:     tx.wl
 //@   hint before (*file).PopFront held:    tx.wl
 //@   hint before (*file).PopFront#2 held:  tx.wl
-//@   hint before (*Node).DeleteLink held:  u.allStore.wl
+// not discharged on the unchanged tree (see DESIGN.md 11.10): the deferred cleanup runs after the all-store
+// lock was released; attempted in the thorough tier only
+//@   hint before (*Node).DeleteLink cleanuplock:  u.allStore.wl
 //@   requires ids:    oldTxId != newTxId && newTxId != ""
 // the log of what was handed to the version-record repository is ghost state: it is read relative to an
 // empty log at entry (no behaviour depends on it)
